@@ -11,6 +11,18 @@ CHECKS = {
  "C05": dict(cat="exploration", tech="differential runtime monitoring: memory engine vs disk engine (several layouts), separate processes",
    text="The same statement sequences run on the memory engine and on 2-5 disk layouts; outcome class and row multisets (key sequence under ORDER BY) must agree. Decides the property on the sequences produced.",
    note="Identical mocked statistics on all engines (cost-based choice is C01's subject); error texts not compared; NULL literals in expressions and aggregates over constants not generated (see DESIGN).", ref="6 C05"),
+ "C06": dict(cat="exploration", tech="round-trip runtime monitor over the real column builders/iterators (hooked lab), input itself is the oracle",
+   text="Random columns of every type/encoding/nullability/block size are built by the real builders and read back through the real column and row-set iterators with random start rows, batch sizes, skips and delete vectors; every returned (row_id, batch) is compared with the written values (floats by bits).",
+   note="Trusted: the lab hook (feature verif) only wires the real builder/opener/iterators together. Iterator protocol as RowSetIterator uses it (batches <= fetch_hint). Fixed-width CHAR not reachable from SQL, not driven.", ref="6 C06"),
+ "C07": dict(cat="exploration", tech="model-based runtime monitor with unique row ids + compactor trace events",
+   text="Histories of insert/delete/compaction/reopen on tiny row-sets; after every step the table must equal a multiset model, DELETE counts must match, compaction passes (confirmed by the compactor's hook event) must not change any scan, primary-key tables must come back in key order.",
+   note="Single session. Compaction driven by the engine's own timer on a paused clock. Key order observed through SELECT * (ordered merge scan).", ref="6 C07"),
+ "C12": dict(cat="exploration", tech="metamorphic runtime monitor (q vs q ORDER BY K vs LIMIT/OFFSET slices) with an independent comparator",
+   text="On tables built by several inserts/deletes/compactions over 4 disk layouts (and memory), ordered results must be K-sorted permutations of the unordered result, ordered LIMIT/OFFSET must equal the slice on K, unordered LIMIT/OFFSET must have the right count and be a sub-multiset.",
+   note="Reference comparator NULL-smallest; ties may permute (slices compared on key columns).", ref="6 C12"),
+ "C13": dict(cat="exploration", tech="differential runtime monitoring: key-range scan vs model filter vs unoptimized run; storage-level RowSetIterator(range) vs filter(scan)",
+   text="SQL leg: ranges of every bound kind on keys of several types/positions with residuals and projections, compared with a Python model and the unoptimized statement; EXPLAIN only counts how many were pushed down. Storage leg: real RowSetIterator with KeyRange + start_rowid seek vs driver-side filtering of the written rows.",
+   note="Storage leg drives the API as SecondaryTransaction::scan does (INT key = storage column 0, scanned first).", ref="6 C13"),
 }
 
 def main():
